@@ -430,3 +430,31 @@ Theorem C04_empty_matrix_other_forms :
     mat_binop O t (mkmat 0 0 []) (mkmat 0 0 []) = None /\ mat_map O u (mkmat 0 0 []) = None /\
     mat_powi O (mkmat 0 0 []) n = None /\ mat_powf O (mkmat 0 0 []) a = None /\ mat_neg O (mkmat 0 0 []) = None.
 Proof. exact @empty_mat_others. Qed.
+
+(** ** Tie A for the reductions: the model IS the source.  [Generated/reduce_loops.v] is regenerated on every run from
+    src/linalg/utils.rs by the statement-level translator (tools/rsexpr.py, target tools/tiea/reduce_loops.py): the
+    [#[cfg(not(feature = "blas"))]] bodies (the verified build has no default features), loops as folds over lists,
+    [usize] in [Z], a panic (the [assert!(n > idx + 7)], an out-of-bounds read) as [None].  For every carrier, operations
+    record and slice: the unrolled [sum] / [dot] never panic and equal the fuelled eight-at-a-time recursion of
+    Model/Reduce.v; [norm], [prod], [logsumexp], [logmeanexp] likewise ([statistics::max], another file, is the parameter
+    of the last two, instantiated by the model [vmax]). *)
+From Compute Require Import Base.RsExpr Generated.reduce_loops Proofs.TieA_reduce_loops.
+Theorem C04_model_is_source_sum :
+  forall (T : Type) (O : Ops T) (x : list T), src_sum O x = Some (sum O x).
+Proof. exact @tiea_sum. Qed.
+(** unequal lengths: both [None] *)
+Theorem C04_model_is_source_dot :
+  forall (T : Type) (O : Ops T) (x y : list T), src_dot O x y = dot O x y.
+Proof. exact @tiea_dot. Qed.
+Theorem C04_model_is_source_norm :
+  forall (T : Type) (O : Ops T) (x : list T), src_norm O x = Some (norm O x).
+Proof. exact @tiea_norm. Qed.
+Theorem C04_model_is_source_prod :
+  forall (T : Type) (O : Ops T) (x : list T), src_prod O x = prod O x.
+Proof. exact @tiea_prod. Qed.
+Theorem C04_model_is_source_logsumexp :
+  forall (T : Type) (O : Ops T) (x : list T), src_logsumexp O (vmax O) x = logsumexp O x.
+Proof. exact @tiea_logsumexp. Qed.
+Theorem C04_model_is_source_logmeanexp :
+  forall (T : Type) (O : Ops T) (x : list T), src_logmeanexp O (vmax O) x = logmeanexp O x.
+Proof. exact @tiea_logmeanexp. Qed.
